@@ -357,7 +357,7 @@ func (W) Gen(prop string, seed uint64, tier string) *world.Plan {
 		case 9:
 			op = world.Op{K: "dropref", B: r.Intn(nB)}
 		case 10:
-			op = world.Op{K: "bad", B: pickB(t), T: t, N: r.Intn(14), V: r.U64(), W: r.U64()}
+			op = world.Op{K: "bad", B: pickB(t), T: t, N: r.Intn(15), V: r.U64(), W: r.U64()}
 		case 11:
 			op = world.Op{K: "log", N: r.Intn(3)}
 		case 12:
